@@ -372,8 +372,10 @@ static void run_case(uint64_t seed, bool latch_mode, int latch_n, const std::str
 }
 
 // The futex word counts waiters in its low 31 bits and never decrements: every wait_for that times out leaves its
-// increment behind.  Start from the word a future is in after `2^31 - k` timed-out wait_for calls (set directly;
-// `c08wrap` in /tmp ran the 2^31 calls for real) and show that wait_for / get then report a value nobody set.
+// increment behind.  2^31 such calls cannot be executed here (a zero-timeout futex wait costs ~100 us natively), so this
+// mode starts from the word a future holds after `2^31 - k` timed-out wait_for calls (written directly, the only
+// shortcut) and shows on the real code that the next wait_for / get report a value nobody set.  It documents why the
+// theorems carry the hypothesis `adds < 2^31`; it is not part of the pass/fail plan of the check.
 static void run_wrap(uint64_t seed) {
   Promise<Val> promise;
   auto fut = promise.get_future();
